@@ -7,6 +7,7 @@ From Coq Require Import String.
 From Coq Require Import List Bool Arith NArith ZArith.
 Import ListNotations.
 Require Import Words Str Rx RxFacts TextModel TextProofs.
+Require Rx RxLang WordToken.
 
 Theorem C10_no_listed_word_survives :
   forall (lc : Words.chr -> Words.chr) (hex : Words.chr -> bool) (P : list Words.chr -> list Words.chr),
@@ -29,6 +30,24 @@ Proof.
   destruct (extract_enclosing raw [] []) as [[h v] t]. cbn [fst snd] in H. rewrite H. reflexivity.
 Qed.
 
+
+(* What the word stage can replace, for EVERY word list, line and position (model/WordToken.v, through the declarative reading of the regex engine in
+   lib/RxDen.v / lib/RxLang.v): a span the engine reports for the sensitive-word pattern is, character by character, a case variant (by the GENERATED table
+   of CPython's IGNORECASE folding) of ONE of the listed words; and on ASCII characters "case variant" means equal up to ASCII letter case (the table
+   evaluated on all 128 x 128 pairs).  So nothing but (case variants of) listed words is ever replaced by this stage. *)
+Theorem C10_word_pattern_matches_only_case_variants_of_listed_words :
+  forall (s : list Rx.chr) (words reserved : list str) (salt : str) (a : word_anonymizer) (i : nat) (c : Rx.caps) (j : nat) (c' : Rx.caps),
+  word_init words salt reserved = Done a -> words <> [] -> (i <= length s)%nat ->
+  In (j, c') (Rx.ms s (w_regex a) i c) ->
+  exists w, In w (map lower_str words) /\ Forall2 WordToken.folds_to (RxLang.sub s i j) w.
+Proof. exact WordToken.word_match_is_a_case_variant_of_a_listed_word. Qed.
+
+Theorem C10_case_variant_on_ascii_is_equality_up_to_letter_case :
+  forall x c : N, (x < 128)%N -> (c < 128)%N -> WordToken.folds_to x c -> lower_ascii x = lower_ascii c.
+Proof. exact WordToken.folds_to_ascii. Qed.
+
 Print Assumptions C10_no_listed_word_survives.
 Print Assumptions C10_reserved_token_untouched.
 Print Assumptions C10_reserved_secret_untouched.
+Print Assumptions C10_word_pattern_matches_only_case_variants_of_listed_words.
+Print Assumptions C10_case_variant_on_ascii_is_equality_up_to_letter_case.
